@@ -7,11 +7,11 @@
 package c03
 
 import (
-	"os"
 	"crypto/sha256"
 	"encoding/hex"
 	"encoding/json"
 	"fmt"
+	"os"
 	"sort"
 
 	"verif/harness/core"
@@ -36,6 +36,8 @@ type record struct {
 	StrictErr string       `json:"stricterr"`
 	File      any          `json:"file"`
 	Written   []writtenRec `json:"written"`
+	Version   string       `json:"version"` // header version as the strict parser read it
+	IDLens    []int        `json:"idlens"`  // byte lengths of the parts of the trailer /ID ([] if absent)
 }
 
 func stripLit(v obj.Value) obj.Value {
@@ -64,15 +66,17 @@ func stripLit(v obj.Value) obj.Value {
 // TLC judges.  Encrypted files are decrypted with the independent security
 // handler (harness/indep/secure).
 func Observe(r c02.Run) record {
-	rec := record{Cfg: r.Cfg, Written: []writtenRec{}}
+	rec := record{Cfg: r.Cfg, Written: []writtenRec{}, IDLens: []int{}}
 	keys := make([][2]int, 0, len(r.Written))
 	for k := range r.Written {
 		keys = append(keys, k)
 	}
-	sort.Slice(keys, func(i, j int) bool { return keys[i][0] < keys[j][0] || keys[i][0] == keys[j][0] && keys[i][1] < keys[j][1] })
+	sort.Slice(keys, func(i, j int) bool {
+		return keys[i][0] < keys[j][0] || keys[i][0] == keys[j][0] && keys[i][1] < keys[j][1]
+	})
 	for _, k := range keys {
 		w := r.Written[k]
-		wr := writtenRec{N: k[0], G: k[1], Kind: "plain", V: obj.JSON(w.Value)}
+		wr := writtenRec{N: k[0], G: r.ConcreteGen(k[1]), Kind: "plain", V: obj.JSON(w.Value)}
 		if w.Stream {
 			h := sha256.Sum256(w.Body)
 			wr.Kind, wr.Sha = "stream", hex.EncodeToString(h[:])
@@ -118,6 +122,16 @@ func Observe(r c02.Run) record {
 		}
 	}
 	rec.File = strict.ToJSON(f)
+	rec.Version = f.Version
+	if id, ok := f.Trailer()["ID"].(obj.Array); ok {
+		for _, part := range id {
+			if str, ok := part.(obj.Str); ok {
+				rec.IDLens = append(rec.IDLens, len(str))
+			} else {
+				rec.IDLens = append(rec.IDLens, -1)
+			}
+		}
+	}
 	return rec
 }
 
@@ -326,6 +340,15 @@ func classify(r record) (string, string) {
 				return fmt.Sprintf("wellformed/%v/%s", p["clause"], cfg), fmt.Sprintf("clause %v: %v", p["clause"], p["msg"])
 			}
 		}
+	}
+	idBad := len(r.IDLens) != 0 && len(r.IDLens) != 2
+	for _, l := range r.IDLens {
+		if l < 0 || r.Version == "2.0" && l < 16 {
+			idBad = true
+		}
+	}
+	if idBad || r.Version == "2.0" && len(r.IDLens) != 2 {
+		return "wellformed/id/" + cfg, fmt.Sprintf("trailer /ID of a PDF %s file has parts of %v bytes (PDF 2.0: two parts of at least 16 bytes)", r.Version, r.IDLens)
 	}
 	return "extracted-differs/" + cfg, "the values the strict parser extracts differ from what the program wrote"
 }
